@@ -479,6 +479,7 @@ type MethodSig struct {
 	Variadic bool
 	Ret      Type // "" for mutators
 	Mutator  bool
+	Reads    string // the field the result depends on ("" = none: referentially transparent in its arguments)
 }
 
 // Methods lists the methods of *Fact known to generator and model.
@@ -489,6 +490,8 @@ var Methods = map[string]MethodSig{
 	"Scale": {Name: "Scale", Params: []Type{TFloat}, Ret: TFloat},
 	"IsBig": {Name: "IsBig", Params: []Type{TInt}, Ret: TBool},
 	"Join":  {Name: "Join", Params: []Type{TString, TString}, Ret: TString},
+	"Level": {Name: "Level", Ret: TInt, Reads: "I"},
+	"Label": {Name: "Label", Ret: TString, Reads: "S"},
 	"SetI":  {Name: "SetI", Params: []Type{TInt}, Mutator: true},
 	"Bump":  {Name: "Bump", Params: []Type{TInt}, Mutator: true},
 	"SetS":  {Name: "SetS", Params: []Type{TString}, Mutator: true},
@@ -556,6 +559,10 @@ func (m *Model) evalCall(e *Expr, apply bool) (interface{}, error) {
 		return CostFn(args[0].(int64)), nil
 	case "Tag":
 		return "tag", nil
+	case "Level":
+		return f.I, nil
+	case "Label":
+		return f.S, nil
 	case "Sum":
 		xs := make([]int64, len(args))
 		for i, a := range args {
